@@ -79,13 +79,14 @@ def handle : List String → Option String
       some s!"ok plain={toHex (plainOut p)} tcpclosed={p.tcpClosed} inner={p.inner.isSome} h={hc} u={uc}"
     | _, _ => some "bad-op"
   | "flow" :: r :: evs =>
-    -- the response write pump: events  s (send the pieces of r) | k:<n> (limit) | r (resume) | p (pause) | l (lost)
+    -- the response write pump: events  s (send the pieces of r) | k:<n> (limit) | r (resume) | p (pause) | l (lost) | t:<n> (n/8 s pass)
     match parseResp r with
     | none => some "bad-op"
     | some resp =>
       let parseF (e : String) : Option Flow.FEv :=
         if e == "s" then some (.send (Flow.pieces resp)) else if e == "r" then some .resume else if e == "p" then some .pause
-        else if e == "l" then some .lost else if e.startsWith "k:" then some (.limit (e.drop 2).toString.toNat!) else none
+        else if e == "l" then some .lost else if e.startsWith "k:" then some (.limit (e.drop 2).toString.toNat!)
+        else if e.startsWith "t:" then some (.tick (e.drop 2).toString.toNat!) else none
       match evs.mapM parseF with
       | none => some "bad-op"
       | some fe =>
